@@ -1556,6 +1556,223 @@ pub fn family_c25() -> Vec<RefProg> {
     out
 }
 
+// -------------------------------------------------------------------------------------------------
+// C25 slot family: a handoff()/optional()/singleton() slot with BOTH a pipe consumer (which drains
+// it) and several `#slot` readers.
+// -------------------------------------------------------------------------------------------------
+
+#[derive(Clone, Copy, Debug, PartialEq, Eq, Hash)]
+pub enum SlotKind {
+    Handoff,
+    Optional,
+    Singleton,
+}
+
+#[derive(Clone, Debug)]
+pub struct SlotProg {
+    pub name: String,
+    pub kind: SlotKind,
+    /// Same-tick pipeline in front of the slot: nothing or one map.
+    pub pipe_map: bool,
+    /// Pipe consumer: `for_each` or `map -> for_each`.
+    pub consumer_map: bool,
+    /// Readers (all shared references), id = index.
+    pub readers: Vec<Reader>,
+    /// Textual order of the statements after the slot definition: 0 = the pipe consumer,
+    /// i + 1 = reader i.
+    pub order: Vec<usize>,
+}
+
+impl SlotProg {
+    pub fn n_sources(&self) -> usize {
+        1 + self.readers.len()
+    }
+    fn enc_expr(&self) -> &'static str {
+        match self.kind {
+            SlotKind::Handoff => "r.iter().fold(0i64, |v, x| v * 32 + (x.0 as i64 * 4 + x.1 as i64 + 1))",
+            SlotKind::Optional => "r.map(|v| v.0 as i64 * 256 + v.1 as i64).unwrap_or(-1)",
+            SlotKind::Singleton => "(r.0 as i64 * 256 + r.1 as i64)",
+        }
+    }
+    pub fn dfir_text(&self) -> String {
+        let pad = "        ";
+        let mut s = String::new();
+        let pipe = if self.pipe_map { " -> map(|x: It| (x.0 + 1, x.1))" } else { "" };
+        let slot = match self.kind {
+            SlotKind::Handoff => "handoff()".to_string(),
+            SlotKind::Optional => {
+                "reduce::<'tick>(|a: &mut It, x: It| { a.0 = a.0.max(x.0); a.1 = a.1.wrapping_add(x.0); }) -> optional()".to_string()
+            }
+            SlotKind::Singleton => {
+                "fold::<'tick>(|| (0u8, 0u8), |a: &mut It, x: It| { a.0 = a.0.wrapping_add(1); a.1 = a.1.wrapping_add(x.0); }) -> singleton()".to_string()
+            }
+        };
+        s.push_str(&format!("{pad}sl = source_stream(rx0){pipe} -> {slot};\n"));
+        for &o in &self.order {
+            if o == 0 {
+                let m = if self.consumer_map { "map(|x: It| (x.0, x.1)) -> " } else { "" };
+                s.push_str(&format!("{pad}sl -> {m}for_each(|x: It| io.item(1, context.current_tick().0, x));\n"));
+            } else {
+                let rd = &self.readers[o - 1];
+                let grp = rd.group.map(|g| format!("{{{g}}} ")).unwrap_or_default();
+                let body = format!(
+                    "let r = #{grp}sl; let v = {}; io.rlog({}, context.current_tick().0, x.0, v, v);",
+                    self.enc_expr(),
+                    rd.id
+                );
+                let cl = match rd.kind {
+                    CK::Map => format!("map(|x: It| {{ {body} x }})"),
+                    CK::Filter => format!("filter(|x: &It| {{ {body} true }})"),
+                    CK::Inspect => format!("inspect(|x: &It| {{ {body} }})"),
+                    CK::FlatMap => format!("flat_map(|x: It| {{ {body} [x] }})"),
+                };
+                s.push_str(&format!("{pad}source_stream(rx{}) -> {cl} -> for_each(|_x: It| ());\n", rd.id + 1));
+            }
+        }
+        s
+    }
+}
+
+/// Expected observation of a C25 program.
+#[derive(Clone, Debug, PartialEq, Eq)]
+pub struct C25Expect {
+    pub readers: BTreeMap<usize, Vec<RLog>>,
+    /// For slot programs: what the slot's pipe consumer receives, per tick (sorted).
+    pub consumer: Option<Vec<Vec<It>>>,
+}
+
+pub fn expect_slot(p: &SlotProg, h: &History) -> C25Expect {
+    let mut readers: BTreeMap<usize, Vec<RLog>> = p.readers.iter().map(|r| (r.id, vec![])).collect();
+    let mut consumer = vec![];
+    for (t, st) in h.iter().enumerate() {
+        let per_src = |k: usize| -> Vec<It> { st.sends.iter().filter(|(s, _)| *s == k).map(|(_, x)| *x).collect() };
+        let mut cur = per_src(0);
+        if p.pipe_map {
+            cur = cur.into_iter().map(|x| (x.0 + 1, x.1)).collect();
+        }
+        // Full same-tick contents of the slot (after ALL of its producers ran).
+        let (val, mut drained): (i64, Vec<It>) = match p.kind {
+            SlotKind::Handoff => (cur.iter().fold(0i64, |v, x| v * 32 + (x.0 as i64 * 4 + x.1 as i64 + 1)), cur.clone()),
+            SlotKind::Optional => {
+                let mut a: Option<It> = None;
+                for x in &cur {
+                    a = Some(match a {
+                        None => *x,
+                        Some(a) => (a.0.max(x.0), a.1.wrapping_add(x.0)),
+                    });
+                }
+                (a.map(|v| v.0 as i64 * 256 + v.1 as i64).unwrap_or(-1), a.into_iter().collect())
+            }
+            SlotKind::Singleton => {
+                let mut a: It = (0, 0);
+                for x in &cur {
+                    a = (a.0.wrapping_add(1), a.1.wrapping_add(x.0));
+                }
+                (a.0 as i64 * 256 + a.1 as i64, vec![a])
+            }
+        };
+        drained.sort();
+        consumer.push(drained);
+        for r in &p.readers {
+            for x in per_src(r.id + 1) {
+                readers.get_mut(&r.id).unwrap().push(RLog { reader: r.id, tick: t as u64, item: x.0, before: val, after: val });
+            }
+        }
+    }
+    C25Expect { readers, consumer: Some(consumer) }
+}
+
+pub fn family_c25_slot() -> Vec<SlotProg> {
+    let mut out = vec![];
+    let kinds = [(SlotKind::Handoff, "handoff"), (SlotKind::Optional, "optional"), (SlotKind::Singleton, "singleton")];
+    let gname = |g: &[Option<u32>]| -> String { g.iter().map(|x| x.map(|v| v.to_string()).unwrap_or("n".into())).collect() };
+    let mut n = 0usize;
+    // Two readers: default group, one explicit shared group, two explicit groups; all 3! orders
+    // of {consumer, reader 0, reader 1}.
+    for (kind, kn) in kinds {
+        for groups in [[None, None], [Some(0), Some(0)], [Some(0), Some(1)]] {
+            for perm in permutations(3) {
+                n += 1;
+                let readers: Vec<Reader> =
+                    (0..2).map(|i| Reader { id: i, kind: ck_of(i + n), group: groups[i], is_mut: false, shared_input: false }).collect();
+                out.push(SlotProg {
+                    name: format!("c25_slotref_{kn}_g{}_ord{}{}{}", gname(&groups), perm[0], perm[1], perm[2]),
+                    kind,
+                    pipe_map: n % 2 == 0,
+                    consumer_map: n % 3 == 0,
+                    readers,
+                    order: perm,
+                });
+            }
+        }
+    }
+    // Three readers: consumer at each of the 4 positions x reader orders 012 / 210 / 120.
+    for ((kind, kn), groups) in kinds.into_iter().zip([[None, None, None], [Some(0), Some(1), Some(1)], [Some(2), Some(2), Some(2)]]) {
+        for ro in [[1usize, 2, 3], [3, 2, 1], [2, 3, 1]] {
+            for cpos in 0..4usize {
+                n += 1;
+                let mut order: Vec<usize> = ro.to_vec();
+                order.insert(cpos, 0);
+                let readers: Vec<Reader> =
+                    (0..3).map(|i| Reader { id: i, kind: ck_of(i + n), group: groups[i], is_mut: false, shared_input: false }).collect();
+                out.push(SlotProg {
+                    name: format!("c25_slotref_{kn}_g{}_ord{}{}{}{}", gname(&groups), order[0], order[1], order[2], order[3]),
+                    kind,
+                    pipe_map: n % 2 == 0,
+                    consumer_map: n % 3 == 0,
+                    readers,
+                    order,
+                });
+            }
+        }
+    }
+    out
+}
+
+/// The whole C25 family: reference programs first, then slot programs.
+#[derive(Clone, Debug)]
+pub enum C25Prog {
+    Ref(RefProg),
+    Slot(SlotProg),
+}
+
+impl C25Prog {
+    pub fn name(&self) -> String {
+        match self {
+            C25Prog::Ref(p) => p.name.clone(),
+            C25Prog::Slot(p) => p.name.clone(),
+        }
+    }
+    pub fn dfir_text(&self) -> String {
+        match self {
+            C25Prog::Ref(p) => p.dfir_text(),
+            C25Prog::Slot(p) => p.dfir_text(),
+        }
+    }
+    pub fn n_sources(&self) -> usize {
+        match self {
+            C25Prog::Ref(p) => p.n_sources(),
+            C25Prog::Slot(p) => p.n_sources(),
+        }
+    }
+    pub fn readers(&self) -> &[Reader] {
+        match self {
+            C25Prog::Ref(p) => &p.readers,
+            C25Prog::Slot(p) => &p.readers,
+        }
+    }
+    pub fn expect(&self, h: &History) -> C25Expect {
+        match self {
+            C25Prog::Ref(p) => C25Expect { readers: expect_ref(p, h), consumer: None },
+            C25Prog::Slot(p) => expect_slot(p, h),
+        }
+    }
+}
+
+pub fn family_c25_all() -> Vec<C25Prog> {
+    family_c25().into_iter().map(C25Prog::Ref).chain(family_c25_slot().into_iter().map(C25Prog::Slot)).collect()
+}
+
 // =================================================================================================
 // Code generation (used by build.rs)
 // =================================================================================================
